@@ -29,6 +29,8 @@ def cases(tier):
             out.append(("poly_raw", n, d))
     for n, d in ([(3, 1), (4, 1), (3, 2)] if tier == "quick" else [(2, 1), (3, 1), (4, 1), (5, 1), (6, 1), (8, 1), (10, 1), (3, 2)]):
         out.append(("poly_orth", n, d))
+    for n, d in ([(4, 2), (5, 3)] if tier == "quick" else [(4, 2), (5, 2), (5, 3), (6, 3), (6, 4)]):
+        out.append(("poly_orth1", n, d))
     # bs parameter space (concrete data): df 0..8, degree -1..5, intercept, explicit knots 0..4
     data_kinds = ["generic", "ties_at_min"]
     for dk in data_kinds:
@@ -52,8 +54,8 @@ def signature(case, v):
 
 
 def zsum(vals):
-    s = 0
-    for v in vals:
+    s = vals[0]
+    for v in vals[1:]:
         s = s + v
     return s
 
@@ -73,6 +75,8 @@ def harness(env, case):
         return comp.call.stateful_transform
 
     if kind in ("center", "scale"):
+        if sym:
+            env.c.rational = True  # exact fractions instead of quotient variables
         x = env.column("x", n)
         y = env.column("y", n)
         df = env.frame({"y": y, "x": x})
@@ -81,9 +85,9 @@ def harness(env, case):
         dm = build(f"y ~ {name}", df)
         col = np.asarray(dm.common[name]).reshape(-1)
         if sym:
-            env.prove(zsum([symx.to_z3(c) for c in col]) == 0, f"{kind}: mean zero on the training data")
+            env.prove(zsum(list(col)) == 0, f"{kind}: mean zero on the training data")
             if kind == "scale":
-                env.prove(zsum([symx.to_z3(c) * symx.to_z3(c) for c in col]) == n, "scale: unit population standard deviation on the training data")
+                env.prove(zsum([c * c for c in col]) == n, "scale: unit population standard deviation on the training data")
         else:
             env.prove(abs(float(np.sum(col))) < 1e-7 * max(1.0, float(np.max(np.abs(x)))), f"{kind}: mean zero on the training data")
             if kind == "scale":
@@ -116,25 +120,38 @@ def harness(env, case):
             new = np.asarray(dm.common.evaluate_new_data(nd).design_matrix)[:, 1:]
         env.prove_equal(new, np.column_stack([nd["x"].values ** k for k in range(1, d + 1)]), "poly raw: powers of the new data at prediction")
         return
-    if kind == "poly_orth":
+    if kind in ("poly_orth", "poly_orth1"):
         d = arg
+        if sym:
+            env.c.rational = True
         x = env.column("x", n)
+        if kind == "poly_orth1":
+            # all values but the last are concrete (asymmetric) rationals: univariate NRA, decidable for higher degree
+            fixed = [0, 1, 3, 7, 8, 12][: n - 1]
+            for i, v in enumerate(fixed):
+                x[i] = (symx.Sym.lift(v) * 1) if sym else float(v)
         df = env.frame({"y": env.column("y", n), "x": x})
         name = f"poly(x, {d})"
-        if sym:
+        if sym and kind == "poly_orth":
             # general position: the data are not all equal (otherwise the norms vanish)
             env.assume(z3.Or([x[i].e != x[0].e for i in range(1, n)]), "poly: x not constant")
         dm = build(f"y ~ {name}", df)
         M = np.asarray(dm.common[name]).reshape(n, -1)
         env.prove(M.shape == (n, d), "poly: d columns")
         for j in range(M.shape[1]):
-            cj = [symx.to_z3(v) for v in M[:, j]] if sym else M[:, j]
+            cj = list(M[:, j])
             if sym:
                 env.prove(zsum(cj) == 0, "poly: columns orthogonal to the constant")
                 env.prove(zsum([a * a for a in cj]) == 1, "poly: columns have unit norm")
             else:
-                env.prove(abs(float(np.sum(cj))) < 1e-7, "poly: columns orthogonal to the constant")
-                env.prove(abs(float(np.sum(cj * cj)) - 1) < 1e-7, "poly: columns have unit norm")
+                env.prove(abs(float(np.sum(M[:, j]))) < 1e-7, "poly: columns orthogonal to the constant")
+                env.prove(abs(float(np.sum(M[:, j] * M[:, j])) - 1) < 1e-7, "poly: columns have unit norm")
+        for j in range(M.shape[1]):
+            for k in range(j + 1, M.shape[1]):
+                if sym:
+                    env.prove(zsum([M[i, j] * M[i, k] for i in range(n)]) == 0, "poly: columns are mutually orthogonal")
+                else:
+                    env.prove(abs(float(np.sum(M[:, j] * M[:, k]))) < 1e-7, "poly: columns are mutually orthogonal")
         # same span as x..x^d: column k satisfies the three-term recurrence with the fitted
         # alpha / norms, i.e. it is a polynomial of exact degree k in x (leading coefficient
         # 1/sqrt(norm_k) != 0), so the basis change to the raw powers is triangular and regular
@@ -143,38 +160,42 @@ def harness(env, case):
             import formulae.transforms as FT
 
             r = {k: FT.np.sqrt(st.norms2[k]) for k in range(0, d + 1)}
-            U = {0: [symx.Sym.lift(1) * 1 for _ in range(n)]}  # unnormalised columns
-            for k in range(1, d + 1):
-                U[k] = [M[i, k - 1] * r[k] for i in range(n)]
-            conds = []
-            for k in range(1, d + 1):
-                for i in range(n):
-                    rhs = (x[i] - st.alpha[k - 1]) * U[k - 1][i]
-                    if k >= 2:
-                        rhs = rhs - (st.norms2[k - 1] / st.norms2[k - 2]) * U[k - 2][i]
-                    conds.append(symx.to_z3(U[k][i]) == symx.to_z3(rhs))
-            env.prove(z3.And(conds), "poly: column k is a degree-k polynomial of x (three-term recurrence with the fitted parameters): same span as x..x^d")
-            # mutual orthogonality of the columns
-            for j in range(M.shape[1]):
-                for k in range(j + 1, M.shape[1]):
-                    env.prove(zsum([symx.to_z3(M[i, j]) * symx.to_z3(M[i, k]) for i in range(n)]) == 0, "poly: columns are mutually orthogonal")
+
+            def recurrence(cols, xs, alpha, norms, m):
+                U = {0: [symx.Sym.lift(1) * 1 for _ in range(m)]}
+                conds = []
+                for k in range(1, d + 1):
+                    U[k] = [cols[i, k - 1] * r[k] for i in range(m)]
+                    for i in range(m):
+                        rhs = (xs[i] - alpha[k - 1]) * U[k - 1][i]
+                        if k >= 2:
+                            rhs = rhs - (norms[k - 1] / norms[k - 2]) * U[k - 2][i]
+                        eq = U[k][i] == rhs
+                        conds.append(eq.e if isinstance(eq, symx.SymB) else z3.BoolVal(bool(eq)))
+                return z3.And(conds)
+
+            env.prove(recurrence(M, x, st.alpha, st.norms2, n), "poly: column k is a degree-k polynomial of x (three-term recurrence with the fitted parameters): same span as x..x^d")
             # later data: the same recurrence with the TRAINING parameters
             alpha0, norms = dict(st.alpha), dict(st.norms2)
             x2 = env.column("xnew", 2)
             nd = env.frame({"y": env.column("ynew", 2), "x": x2})
             with env.running():
                 new = np.asarray(dm.common.evaluate_new_data(nd).design_matrix)[:, 1:]
-            V = {0: [symx.Sym.lift(1) * 1 for _ in range(2)]}
-            conds2 = []
-            for k in range(1, d + 1):
-                V[k] = [new[i, k - 1] * r[k] for i in range(2)]
-                for i in range(2):
-                    rhs = (x2[i] - alpha0[k - 1]) * V[k - 1][i]
-                    if k >= 2:
-                        rhs = rhs - (norms[k - 1] / norms[k - 2]) * V[k - 2][i]
-                    conds2.append(symx.to_z3(V[k][i]) == symx.to_z3(rhs))
-            env.prove(z3.And(conds2), "poly: later data go through the same recurrence with the training parameters")
-            env.prove_equal([st.alpha[k] for k in sorted(alpha0)], [alpha0[k] for k in sorted(alpha0)], "poly: fitted recurrence coefficients unchanged by evaluate_new_data")
+            ok = env.prove_equal([st.alpha[k] for k in sorted(alpha0)] + [st.norms2[k] for k in sorted(norms)], [alpha0[k] for k in sorted(alpha0)] + [norms[k] for k in sorted(norms)],
+                                 "poly: fitted recurrence coefficients and norms unchanged by evaluate_new_data")
+            if ok:
+                env.prove(recurrence(new, x2, alpha0, norms, 2), "poly: later data go through the same recurrence with the training parameters")
+        else:
+            alpha0, norms = dict(st.alpha), dict(st.norms2)
+            x2 = env.column("xnew", 2)
+            nd = env.frame({"y": env.column("ynew", 2), "x": x2})
+            with env.running():
+                new = np.asarray(dm.common.evaluate_new_data(nd).design_matrix)[:, 1:]
+            env.prove_equal([st.alpha[k] for k in sorted(alpha0)] + [st.norms2[k] for k in sorted(norms)], [alpha0[k] for k in sorted(alpha0)] + [norms[k] for k in sorted(norms)],
+                            "poly: fitted recurrence coefficients and norms unchanged by evaluate_new_data")
+            if d >= 1:
+                want1 = (x2 - alpha0[0]) / np.sqrt(norms[1])
+                env.prove_equal(new[:, 0], want1, "poly: later data go through the same recurrence with the training parameters")
         return
     if kind == "bs":
         dfp, degree, intercept, nk = arg
@@ -255,11 +276,11 @@ def run(tier, seed):
     rep.functions = ["formulae.transforms.Center.__call__", "formulae.transforms.Scale.__call__", "formulae.transforms.Polynomial.__call__/eval (raw and three-term recurrence, object work buffer)",
                      "formulae.transforms.BSpline.__call__/_initialize (validation, knot counts) and the column count of eval", "formulae.terms.call_resolver.LazyCall.eval"]
     cs = cases(tier)
-    rep.bounds = {"center/scale/standardize": "n = 2..4 symbolic reals (thorough 2..10)", "poly raw": "degree 1..6, n = 3 (thorough 2, 3, 5)", "poly orthonormal": "degree 1 with n = 3, 4 (thorough 2..10); degree 2 with n = 3",
+    rep.bounds = {"center/scale/standardize": "n = 2..4 symbolic reals (thorough 2..10)", "poly raw": "degree 1..6, n = 3 (thorough 2, 3, 5)", "poly orthonormal": "degree 1 with n = 3, 4 (thorough 2..10); degree 2 with n = 3; with all but one data value concrete (0, 1, 3, 7, ...): degree 2 with n = 4 and degree 3 with n = 5 (thorough: up to degree 4 with n = 6)",
                   "bs": "df None,0..8 x degree -1..5 x intercept x explicit knots None,0,1,2,4 on two concrete data sets (generic; 60% ties at the minimum)", "cases": len(cs)}
     rep.outside = [
         "bs: non-negativity and partition of unity of the basis VALUES (computed by FITPACK splev, compiled Fortran: no source/IR to execute symbolically) -- not decided, not claimed",
-        "poly orthonormality beyond (degree 1, n <= 10) and (degree 2, n = 3): the NRA queries (square roots of nested quotients) return unknown after 60-90 s for degree 2 with n = 4, 5 and do not finish for degree 3 (probed); those are not decided and not claimed",
+        "poly orthonormality with ALL data values symbolic beyond (degree 1, n <= 10) and (degree 2, n = 3): unit norm for degree 2, n = 4 returns unknown after 40 s even with exact fractions; with one symbolic value among concrete ones degree 4 / n = 6 takes 180 s and degree 5 does not finish -- not decided, not claimed",
         "floating point (catastrophic cancellation, overflow); zero variance / constant x (assumed away)",
     ]
     rep.stubs = pipe.STUBS
